@@ -19,7 +19,7 @@ RULE = ("cases: random clamped shapes (curve/surface/volume, rational or not, no
 ASSUMPTIONS = ["nvmon.ref exact reference model", "explored domain of DESIGN.md section 3; tolerance 1e-9*scale"]
 FLOORS = {'quick': {'refine': 150, 'probe-lib': 2000, 'probe-defn': 2000, 'structure': 150, 'untouched': 60, 'helper': 60},
           'thorough': {'refine': 2000, 'probe-lib': 30000}}
-MANDATORY_TAGS = ['pdim1', 'pdim2', 'pdim3', 'rational', 'density2', 'density3', 'dirs:partial', 'dirs:all', 'helper:knot_list',
+MANDATORY_TAGS = ['large', 'pdim1', 'pdim2', 'pdim3', 'rational', 'density2', 'density3', 'dirs:partial', 'dirs:all', 'helper:knot_list',
                   'helper:add_knot_list', 'unnormalized', 'helper:single-knot-list', 'helper:knot_list+add_knot_list', 'helper:tuple-kv', 'unclamped', 'short-knot-range']
 TECHNIQUE = ("runtime monitoring: exact reference-model oracle + structural knot-vector oracle after every refine_knotvector / "
              "knot_refinement call of a seeded workload")
@@ -42,6 +42,8 @@ def gen(rng, tier, shard, nshards):
         if 'lohi' not in kw and rng.random() < 0.12:
             a_ = rng.choice([0.0, 5.0, -2.0 ** -21])
             kw.update(normalize=False, lohi=(a_, a_ + rng.choice([2.0 ** -20, 2.0 ** -17, 2.0 ** 12])))
+        if 'lohi' not in kw and 'kvcls' not in kw and not (shard == 0 and i < len(forced)) and rng.random() < 0.06:
+            kw['large'] = True         # degree up to 10 / 40 control points; one long, high-degree direction for surfaces and volumes
         unclamped = 'kvcls' not in kw and rng.random() < 0.25
         sd = G.rand_shape(rng, pd, clamped_only=not unclamped, **(dict(kw, kvcls=rng.choice(['unclamped', 'unclamped_rep'])) if unclamped else kw))
         yield {'kind': 'refine', 'sd': sd, 'seed': rng.randrange(1 << 30)}
@@ -113,6 +115,8 @@ def check(case, ctx):
         ctx.tag('unclamped')
     if any(abs(kv[-1] - kv[0]) < 1e-4 for kv in sd['kvs']):
         ctx.tag('short-knot-range')
+    if sd.get('large'):
+        ctx.tag('large')
     ctx.tag('pdim%d' % pdim, 'rational' if sd['rational'] else 'nonrational',
             'normalized' if sd['normalize_kv'] else 'unnormalized')
     rounds = rng.randint(1, 2)
